@@ -37,7 +37,7 @@ Definition labels_of (lab : labelling) (ids : list Z) : list Z :=
   end.
 
 (* what iter(dense=False) yields per vector: id, values, metadata (None when the axis has none) *)
-Definition vrec := (Z * list Z * Tree)%type.
+Notation vrec := (Z * list Z * Tree)%type (only parsing).
 Definition v_id (v : vrec) : Z := fst (fst v).
 Definition v_row (v : vrec) : list Z := snd (fst v).
 Definition v_md (v : vrec) : Tree := snd v.
